@@ -65,7 +65,7 @@ def case_strategy():
     path = st.lists(seg, min_size=1, max_size=4).map(lambda l: "/" + "/".join(l))
     ambiguous = st.sampled_from(
         [["/a/b/c", "/ab/c"], ["/a/b", "/ab"], ["/a/b/c", "/a/bc", "/ab/c"], ["/a/b/a/b", "/ab/ab", "/a/b/ab"],
-         ["/a/b/c", "/a/b/A", "/a/c"], ["/.a", "/a"], ["/..a/b", "/a/b"], ["/a b/c", "/a/b c", "/ab/c"]]
+         ["/a/b/c", "/a/b/A", "/a/c"], ["/.a", "/a"], ["/..a/b", "/a/b"], ["/a b/c", "/a/b c", "/ab/c"], ["/.a/b", "/a/b"], ["/.a/..a", "/a/.a"]]
     )
     val = st.one_of(
         st.text(max_size=8), st.binary(max_size=8), st.none(),
@@ -202,6 +202,20 @@ def check_case(case, ev=None, scratch=None):
                 esc = env.escaped_entries()
                 if esc:
                     fail(f"{when}: entries created outside the store directories: {esc}")
+            if case["kind"] == "dbfs":
+                # full commit: the object of every committed path is exported at <data_dir>/<segments>
+                for p in pool:
+                    if p in paths and isinstance(blobs.get(paths[p]), (str, bytes)):
+                        v = blobs[paths[p]]
+                        want = v.encode("utf-8") if isinstance(v, str) else v
+                        fp = os.path.join(env.dir, "dbfsroot", "data", *segs_of(p))
+                        try:
+                            with open(fp, "rb") as fh:
+                                got = fh.read()
+                        except OSError as e:
+                            fail(f"{when}: the object of the committed path {p} is not at its location under the data directory ({e})")
+                        if got != want:
+                            fail(f"{when}: the file of the committed path {p} under the data directory holds {got[:40]!r}, committed {want[:40]!r}")
 
         for step, o in enumerate(case["ops"]):
             kind = o[0]
